@@ -152,6 +152,52 @@ pub fn foreign_raws(ty: Ty) -> Vec<i64> {
     v
 }
 
+/// A raw count drawn around the range limits (steps of one unit, one second,
+/// one minute, one hour, one day, on either side), among the integer
+/// extremes, or anywhere in the integer type.
+pub fn draw_foreign_raw(rng: &mut Rng, ty: Ty) -> i64 {
+    let (lo, hi) = (ty.lo(), ty.hi());
+    let wide = ty.bin_width() == 8;
+    let v: i128 = match rng.below(10) {
+        0 | 1 => *rng.pick(&foreign_raws(ty)) as i128,
+        2..=6 => {
+            let base = if rng.bool() { lo } else { hi } as i128;
+            let unit: i128 = if wide {
+                *rng.pick(&[1i128, 1_000, 1_000_000, 60_000_000, 3_600_000_000, 86_400_000_000])
+            } else {
+                *rng.pick(&[1i128, 2, 12, 365])
+            };
+            let k = rng.range_i64(0, 100) as i128;
+            let mut d = k * unit;
+            if rng.chance(1, 3) {
+                d += *rng.pick(&[-1i128, 1, 999_999, -999_999]);
+            }
+            if rng.bool() {
+                base + d
+            } else {
+                base - d
+            }
+        }
+        7 => {
+            // any whole second / whole day, anywhere
+            let unit: i128 = if wide { *rng.pick(&[1_000_000i128, 86_400_000_000]) } else { 1 };
+            (rng.next_u64() as i64 as i128) / unit * unit
+        }
+        _ => {
+            if wide {
+                rng.next_u64() as i64 as i128
+            } else {
+                rng.next_u64() as i32 as i128
+            }
+        }
+    };
+    if wide {
+        v.clamp(i64::MIN as i128, i64::MAX as i128) as i64
+    } else {
+        v.clamp(i32::MIN as i128, i32::MAX as i128) as i64
+    }
+}
+
 /// Human-readable payloads that no correct serializer produces.
 pub fn foreign_texts(ty: Ty) -> Vec<&'static str> {
     match ty {
